@@ -133,7 +133,10 @@ func TestSeededFaults(t *testing.T) {
 			return true
 		}, "types:extra"},
 		{"duplicate possible type", func(d map[string]interface{}) bool {
-			tm := find(d, func(tm map[string]interface{}) bool { l, ok := tm["possibleTypes"].([]interface{}); return ok && len(l) > 0 })
+			tm := find(d, func(tm map[string]interface{}) bool {
+				l, ok := tm["possibleTypes"].([]interface{})
+				return ok && len(l) > 0
+			})
 			if tm == nil {
 				return false
 			}
